@@ -1,5 +1,5 @@
 //@unit node_payments
-//@props C06
+//@props C06 C12 C10 C11
 // Contracts on the node-wide payment ledger (vls-core/src/node.rs): RoutedPayment::{updated_incoming_outgoing, apply,
 // get_cltv_bounds} and NodeState::validate_payments.  Together with unit pay_summary (what a channel reports) and
 // SimpleValidator::validate_payment_balance (unit sv_commit) they give the per-update step of C06: an accepted update
@@ -20,9 +20,11 @@ use vstd::std_specs::cmp::OrdSpec;
 //@map /\bString\b/ => VxStr
 //@map /Arc<dyn Validator>/ => VxValidator
 //@map /\.values\(\)\.sum::<u64>\(\)/ => .vx_sum()
+//@map /\bDuration::from_secs\(/ => VxDuration::from_secs(
 //@map /\bDuration\b/ => VxDuration
 //@map /UnorderedSet<&PaymentHash>/ => VxHashSet
 //@map /UnorderedSet::new\(\)/ => VxHashSet::new()
+//@macro defer => {}
 verus! {
 
 //@@TAGS
@@ -31,9 +33,8 @@ verus! {
 #[verifier::external_body] pub struct VxAllowSet { _p: u8 }
 #[verifier::external_body] pub struct VxStr { _p: u8 }
 #[verifier::external_body] pub struct VxDuration { _p: u8 }
-#[verifier::external_body] pub struct PaymentType { _p: u8 }
+//@type vls-core/src/node.rs :: PaymentType
 pub struct PaymentPreimage(pub [u8; 32]);
-#[verifier::external_body] pub struct VelocityControl { _p: u8 }
 #[verifier::external_body] pub struct VxValidator { _p: u8 }
 impl Clone for VxValidator { #[verifier::external_body] fn clone(&self) -> (r: Self) ensures r == *self { unimplemented!() } }
 
@@ -135,6 +136,15 @@ pub fn vx_cltv_of(info: Option<&CommitmentInfo2>, hash: &PaymentHash) -> (Option
 #[verifier::external_body]
 pub proof fn axiom_map_total_empty() ensures map_total(Map::<ChannelId, u64>::empty()) == 0 {}
 
+//@type vls-core/src/util/velocity.rs :: VelocityControl
+//@type vls-core/src/util/velocity.rs :: VelocityControlIntervalType
+//@type vls-core/src/util/velocity.rs :: VelocityControlSpec
+//@include frag/velocity_spec.rs
+impl VelocityControl {
+//@fn vls-core/src/util/velocity.rs :: impl VelocityControl :: insert mode=trusted
+//@include frag/c/vc_insert.rs
+//@end
+}
 //@type vls-core/src/node.rs :: PaymentState
 //@type vls-core/src/node.rs :: RoutedPayment
 //@type vls-core/src/node.rs :: NodeState
@@ -365,6 +375,120 @@ impl NodeState {
 //@end
 
 } // impl NodeState
+
+// ------------------------------------------------------------------ approving payments: Node::add_keysend / add_invoice
+// the part of Node these functions touch (sequential mutex model, R11): the node state behind its lock, the clock, the
+// policy and the persister (ghost: the last node state handed to Persist::update_node)
+pub struct VxNodeInv { pub state: NodeState, pub persisted: Ghost<Option<NodeState>>, pub rest: VxNodeInvRest }
+#[verifier::external_body] pub struct VxNodeInvRest { _p: u8 }
+#[verifier::external_body] pub struct VxPolicyI { _p: u8 }
+impl VxPolicyI { #[verifier::external_body] pub fn max_invoices(&self) -> usize { unimplemented!() } }
+#[verifier::external_body] pub struct Invoice { _p: u8 }
+impl Invoice {
+    pub uninterp spec fn hash(&self) -> PaymentHash;
+    pub uninterp spec fn ihash(&self) -> [u8; 32];
+    pub uninterp spec fn amount(&self) -> u64;
+    #[verifier::external_body] pub fn payment_hash(&self) -> (r: PaymentHash) ensures r == self.hash() { unimplemented!() }
+    #[verifier::external_body] pub fn invoice_hash(&self) -> (r: [u8; 32]) ensures r == self.ihash() { unimplemented!() }
+    #[verifier::external_body] pub fn amount_milli_satoshis(&self) -> (r: u64) ensures r == self.amount() { unimplemented!() }
+    #[verifier::external_body] pub fn payee_pub_key(&self) -> PublicKey { unimplemented!() }
+    #[verifier::external_body] pub fn duration_since_epoch(&self) -> VxDuration { unimplemented!() }
+    #[verifier::external_body] pub fn expiry_duration(&self) -> VxDuration { unimplemented!() }
+}
+impl VxDuration {
+    pub uninterp spec fn secs(&self) -> u64;
+    #[verifier::external_body] pub fn from_secs(s: u64) -> VxDuration { unimplemented!() }
+    #[verifier::external_body] pub fn as_secs(&self) -> (r: u64) ensures r == self.secs() { unimplemented!() }
+}
+impl Clone for VxDuration { #[verifier::external_body] fn clone(&self) -> (r: Self) ensures r == *self { unimplemented!() } }
+impl Copy for VxDuration {}
+impl VxInvoiceMap {
+    #[verifier::external_body] pub fn len(&self) -> usize { unimplemented!() }
+    #[verifier::external_body]
+    pub fn insert(&mut self, k: PaymentHash, v: PaymentState) -> (r: Option<PaymentState>) ensures final(self)@ == old(self)@.insert(k, v) { unimplemented!() }
+}
+impl VxPaymentMap {
+    // `state.payments.entry(hash).or_insert_with(RoutedPayment::new);` (result unused)
+    #[verifier::external_body]
+    pub fn vx_ensure(&mut self, k: PaymentHash)
+        ensures
+            old(self)@.contains_key(k) ==> final(self)@ == old(self)@,
+            !old(self)@.contains_key(k) ==> exists|n: RoutedPayment| is_routed_new(n) && final(self)@ == old(self)@.insert(k, n),
+    { unimplemented!() }
+}
+impl VxValidator {
+    #[verifier::external_body] pub fn validate_invoice(&self, i: &Invoice, now: VxDuration) -> Result<(), ValidationError> { unimplemented!() }
+}
+pub open spec fn vc_abs_of(st: NodeState) -> VcAbs { vc_abs(st.velocity_control) }
+// what approving (hash, amount) at time `now` must do to the node state
+pub open spec fn approved(o: NodeState, f: NodeState, h: PaymentHash, amount: u64, now: u64) -> bool {
+    &&& f.invoices@.contains_key(h) && f.invoices@[h].amount_msat == amount
+    &&& f.invoices@ == o.invoices@.insert(h, f.invoices@[h])
+    &&& vc_accepts(vc_abs_of(o), now, amount) && vc_abs_of(f) == vc_step(vc_abs_of(o), now, amount)
+}
+impl VxNodeInv {
+    pub uninterp spec fn clock_secs(&self) -> u64;
+    #[verifier::external_body]
+    pub fn vx_clock_now(&self) -> (r: VxDuration)
+        ensures r.secs() == self.clock_secs(), self.clock_secs() >= self.state.velocity_control.start_sec
+    { unimplemented!() }
+    #[verifier::external_body] pub fn policy(&self) -> VxPolicyI { unimplemented!() }
+    #[verifier::external_body] pub fn validator(&self) -> VxValidator { unimplemented!() }
+    #[verifier::external_body] pub fn get_id(&self) -> PublicKey { unimplemented!() }
+    // self.persister.update_node(&id, &*state).expect(..): the store holds the state given (storage failure = abort)
+    pub fn vx_update_node(&mut self)
+        ensures final(self).state == old(self).state, final(self).rest == old(self).rest, final(self).persisted@ == Some(old(self).state)
+    { self.persisted = Ghost(Some(self.state)); }
+
+//@fn vls-core/src/node.rs :: impl Node :: payment_state_from_keysend props=C06
+    ensures r.is_ok(), r->Ok_0.0.amount_msat == amount_msat, r->Ok_0.0.invoice_hash == payment_hash.0, r->Ok_0.1 == payment_hash.0,
+        !r->Ok_0.0.is_fulfilled,
+//@end
+
+//@fn vls-core/src/node.rs :: impl Node :: payment_state_from_invoice props=C06
+    ensures r.is_ok(), r->Ok_0.0 == invoice.hash(), r->Ok_0.1.amount_msat == invoice.amount(),
+        r->Ok_0.1.invoice_hash == invoice.ihash(), r->Ok_0.2 == invoice.ihash(), !r->Ok_0.1.is_fulfilled,
+//@end
+
+//@fn vls-core/src/node.rs :: impl Node :: add_keysend props=C06,C12,C10,C11
+//@sigsub /&self/ => &mut self
+    requires vc_wf(old(self).state.velocity_control),
+    ensures
+        // a NEW approval records exactly the requested amount for the hash and is counted by the velocity control at the
+        // clock's seconds; it is in the store when the call returns
+        r.is_ok() && r->Ok_0 && !old(self).state.invoices@.contains_key(payment_hash) ==>
+            approved(old(self).state, final(self).state, payment_hash, amount_msat, old(self).clock_secs())
+            && final(self).persisted@ == Some(final(self).state),                                         //[C06.add-keysend.approves-exact-amount] [C12.add-keysend.counted] [C11.add-keysend.persisted]
+        // an existing approval is never widened
+        old(self).state.invoices@.contains_key(payment_hash) ==> final(self).state.invoices@ == old(self).state.invoices@,   //[C06.add-keysend.existing-untouched]
+        // refused (velocity limit, too many invoices, different keysend for the hash): nothing is approved
+        !(r.is_ok() && r->Ok_0) ==> final(self).state.invoices@ == old(self).state.invoices@
+            && final(self).state.payments@ == old(self).state.payments@,                                   //[C10.add-keysend.refused-approves-nothing]
+//@sub /Node::payment_state_from_keysend\(/ => Self::payment_state_from_keysend(
+//@sub /self\.clock\.now\(\)/ => self.vx_clock_now()
+//@sub /let mut state = self\.get_state\(\);/ => 
+//@sub /\bstate\./ => self.state.
+//@sub /self\.state\.payments\.entry\(payment_hash\)\.or_insert_with\(RoutedPayment::new\);/ => self.state.payments.vx_ensure(payment_hash);
+//@sub /(?s)self\.persister\.update_node\(&self\.get_id\(\), &\*state\)\.vx_expect\(\);/ => self.vx_update_node();
+//@end
+
+//@fn vls-core/src/node.rs :: impl Node :: add_invoice props=C06,C12,C10,C11
+//@sigsub /&self/ => &mut self
+    requires vc_wf(old(self).state.velocity_control),
+    ensures
+        r.is_ok() && r->Ok_0 && !old(self).state.invoices@.contains_key(invoice.hash()) ==>
+            approved(old(self).state, final(self).state, invoice.hash(), invoice.amount(), old(self).clock_secs())
+            && final(self).persisted@ == Some(final(self).state),                                         //[C06.add-invoice.approves-exact-amount] [C12.add-invoice.counted] [C11.add-invoice.persisted]
+        old(self).state.invoices@.contains_key(invoice.hash()) ==> final(self).state.invoices@ == old(self).state.invoices@,   //[C06.add-invoice.existing-untouched]
+        !(r.is_ok() && r->Ok_0) ==> final(self).state.invoices@ == old(self).state.invoices@
+            && final(self).state.payments@ == old(self).state.payments@,                                   //[C10.add-invoice.refused-approves-nothing]
+//@sub /self\.clock\.now\(\)/ => self.vx_clock_now()
+//@sub /let mut state = self\.get_state\(\);/ => 
+//@sub /\bstate\./ => self.state.
+//@sub /self\.state\.payments\.entry\(hash\)\.or_insert_with\(RoutedPayment::new\);/ => self.state.payments.vx_ensure(hash);
+//@sub /(?s)self\.persister\.update_node\(&self\.get_id\(\), &\*state\)\.vx_expect\(\);/ => self.vx_update_node();
+//@end
+}
 
 // apply() realises exactly the totals that updated_incoming_outgoing() announced and validate_payments() checked
 pub proof fn c06_apply_realises_validated_totals(p: RoutedPayment, q: RoutedPayment, c: ChannelId, inc: u64, out: u64)
